@@ -275,7 +275,8 @@ def nondet_inventory():
             containers.append((fn, m.group(0), "std-hash"))
         for pat, what in ((r"env::var(?:_os)?\s*\(", "env::var"), (r"env::vars(?:_os)?\s*\(", "env::vars"),
                           (r"SystemTime|Instant::now|chrono::", "clock"), (r"thread::current|process::id\s*\(", "thread/process id"),
-                          (r"\{:p\}", "pointer formatting"), (r"thread_rng|rand::|getrandom", "rng")):
+                          (r"\{:p\}", "pointer formatting"), (r"thread_rng|rand::|getrandom", "rng"),
+                          (r"thread::spawn|thread::scope|thread::Builder|mpsc::|rayon::|crossbeam", "threads")):
             for m in re.finditer(pat, code):
                 reads.append((fn, what))
         for m in re.finditer(r"(?:env!|option_env!|env::var(?:_os)?)\s*\(\s*\"([A-Za-z_][A-Za-z0-9_]*)\"", code):
